@@ -60,7 +60,7 @@ Qed.
 Lemma frame_frozen : forall h ps fp h' ps' fp' jx x,
   (forall a, In a fp -> aaddr ps a) -> post h ps fp h' ps' fp' -> frep h ps jx x -> frep h' ps' jx x.
 Proof.
-  intros h ps fp h' ps' fp' jx x Hfp (P1 & P2 & P3 & P4 & P5 & P6) Hx. unfold frep in *.
+  intros h ps fp h' ps' fp' jx x Hfp (P1 & P2 & P3 & P4 & P5 & P6 & P7) Hx. unfold frep in *.
   apply orep_frame with (h := h) (ps := ps); auto.
   intros a Ha [Hna | []]. apply P2; auto.
 Qed.
@@ -87,5 +87,5 @@ Proof.
   - intros jx x Hx. assert (frep h' ps' jx x).
     { apply (frame_frozen h ps fp h' ps' fp' jx x); auto. intros a Ha. apply (orep_fp _ _ _ _ _ Hr a Ha). }
     split; auto. intros. eapply orep_abs; eauto.
-  - destruct Hpost as (_ & _ & _ & _ & _ & P6). auto.
+  - destruct Hpost as (_ & _ & _ & _ & _ & P6 & _). auto.
 Qed.
